@@ -20,6 +20,7 @@ LEVEL_TEXT = ("seeded search over call histories (chunk splits, interleavings be
 LEVEL_NOTE = ("claimed for the history- and stream-dependent clauses; RefAES validated against FIPS-197 App. C and "
               "SP 800-38A vectors and the openssl binary; calls the API rejects (wrong length for block modes) are no demand")
 RUNS = {"quick": 4000, "thorough": 300000}
+OPTIMIZED_PASS = {"quick": 250, "thorough": 6000}   # extra runs under PYTHONOPTIMIZE=1 (assert statements removed)
 RULE = ("per run a history of 6-40 operations: create mode (ECB/CBC/CFB-s/OFB/CTR incl. counter wrap, key 16/24/32), "
         "direct mode calls, Encrypter/Decrypter feed with chunk sizes 0-100 and finish, stream pumps with read sizes 1..n "
         "and block_size 1..8192, adapter encrypt/decrypt/mac on reused objects; non-trivial = at least two objects were "
@@ -27,7 +28,7 @@ RULE = ("per run a history of 6-40 operations: create mode (ECB/CBC/CFB-s/OFB/CT
 REAL = ["pyaes.aes (AES, all modes, Counter)", "pyaes.blockfeeder (Encrypter, Decrypter, stream pumps)", "pyaes.util",
         "register_crypto_plugin.AES128Proxy via bec2format.crypto.create_AES128"]
 STUBS = ["input/output streams: SimByteStream (short reads)", "RefAES (bit-level reference)"]
-PROBES = ["shared-adapter-two-threads", "key-in-reused-buffer", "both-directions-on-one-object", "ctr-wrap", "cfb-partial-final-segment", "feeder-chunk-zero", "short-read", "adapter-reused",
+PROBES = ["runs-with-assertions-disabled", "shared-adapter-two-threads", "key-in-reused-buffer", "both-directions-on-one-object", "ctr-wrap", "cfb-partial-final-segment", "feeder-chunk-zero", "short-read", "adapter-reused",
           "adapter-trailing-zero-plaintext", "interleaved-objects", "key-24", "key-32", "pump-block-size-1",
           "decrypter-pkcs7"]
 ASSUMPTIONS = ["sharing one *mode* object between two feeders has no defined result and is not generated"]
